@@ -70,8 +70,17 @@ def sem_functions(mod):
         out[name] = f
     return out
 
-def analyse(ctx):
-    mod = ctx.mod('C')
+def no_deadline_const(mod):
+    """(seconds, nanoseconds) of the constant nsync_time_no_deadline as the library defines it, or None"""
+    for n, g in mod.globals.items():
+        if (g.get('srcname') == 'nsync_time_no_deadline' or n == 'nsync_time_no_deadline') and g.get('init', {}).get('k') == 'agg':
+            v = tuple(e.get('v') for e in g['init']['elts'])
+            if len(v) == 2 and all(isinstance(x, int) for x in v):
+                return (v[0] & U64, v[1] & U64)
+    return None
+
+def analyse(ctx, cfg='C'):
+    mod = ctx.mod(cfg)
     K = ctx.probe
     S = Ptr('arg:s', ())
     res = {}
@@ -84,7 +93,9 @@ def analyse(ctx):
             if len(fn.args) != 3:
                 raise AnalysisBroken('%s: expected the deadline to be passed as (seconds, nanoseconds)' % name)
             args += [('e', 'deadline.sec', ('s',)), ('e', 'deadline.nsec', ('s',))]
-            syms = {'deadline.sec': SEC_REPS, 'deadline.nsec': NSEC_REPS}
+            nd = no_deadline_const(mod)
+            syms = {'deadline.sec': SEC_REPS | (frozenset((nd[0],)) if nd else frozenset()),
+                    'deadline.nsec': NSEC_REPS | (frozenset((nd[1],)) if nd else frozenset())}
         exits = eng.run(name, args, nn={S}, syms=syms)
         res[name] = (eng, exits)
     return res
